@@ -5,7 +5,7 @@ TRUSTED_BASE = [
     "Coq 8.16.1 kernel (coqc; coqchk in the thorough tier); vm_compute used for finite facts and witnesses; native_compute not used",
     "no axioms: every property theorem must print 'Closed under the global context' (any exception is allow-listed per property and named here)",
     "extraction: Require Extraction + ExtrOcamlBasic only (bool, option, unit, list, prod, sumbool, sumor mapped to OCaml natives; no Extract Constant / Extract Inductive of our own); OCaml 4.13.1; ocaml/driver.ml (hex parsing, entry table); a sample of cases is re-evaluated with vm_compute inside coqc on every run",
-    "translator/rs2v.py (regex extraction of constants and tables from /repo/src into Generated.v)",
+    "translator/rs2v.py (regex extraction from /repo/src into Generated.v: constants, stream plan, register and protection tables, fail points, and the sets of MinidumpWriter fields mutated during a request / reset at its start)",
     "correspondence harness (harness/src): generators, independent decoders and oracles; it links /repo's current working tree",
 ]
 
